@@ -132,7 +132,7 @@ func c09Scenarios() []*engine.SScenario {
 		})
 		return rt.Outcome{Res: res, Violations: append(viol, panicsAndDeadlocks(res)...), Digest: dig}
 	}}
-	return []*engine.SScenario{two, twoB, twoAB, three, twoFeat}
+	return append([]*engine.SScenario{two, twoB, twoAB, three, twoFeat}, pairMatrix("C09", false)...)
 }
 
 var res0 = &rt.Result{}
